@@ -65,7 +65,7 @@ func (s errShape) isPermission() bool {
 	b := s.base()
 	return b == "ErrPermission" || b == "EACCES" || b == "EPERM"
 }
-func (s errShape) isEOFDeep() bool { return s.base() == "EOF" } // errors.Is unwraps os's wrappers
+func (s errShape) isEOFDeep() bool   { return s.base() == "EOF" } // errors.Is unwraps os's wrappers
 func (s errShape) isFxerrDeep() bool { return s.Outer == "fxerr" }
 
 type errEval struct {
